@@ -61,5 +61,103 @@ Qed.
 (* P is idempotent *)
 Theorem P_idempotent z : P (P z) = P z.
 Proof.
-  unfold P at 1. apply gsum_ext_eq. Abort.
+  unfold P at 1. apply gsum_ext. intros k Hk.
+  (* E_k B_k (sum_j E_j B_j z) = sum_j B_k E_k E_j B_j z = B_k E_k B_k z *)
+  unfold P. rewrite (additive_gsum (B k)) by apply B_add. rewrite (additive_gsum (E k)) by apply E_add.
+  rewrite (gsum_ext n _ (fun j => if Nat.eqb k j then E k (B k z) else gz)).
+  - apply gsum_single; exact Hk.
+  - intros j Hj. rewrite EB_comm by exact Hk. rewrite E_orth by assumption.
+    destruct (Nat.eqb_spec k j) as [<-|Hne].
+    + rewrite <- EB_comm by exact Hk. rewrite EB_comm by exact Hk.
+      rewrite <- (EB_comm k (B k z)) by exact Hk. rewrite B_idem by exact Hk. reflexivity.
+    + destruct (B_add k) as [Hb _]. exact Hb.
+Qed.
+
+(* inner product: K abelian group, ip additive in each argument; E_k, B_k self-adjoint *)
+Variable K : Type.
+Variables (kz : K) (kadd : K -> K -> K).
+Variable ip : G -> G -> K.
+Hypothesis ip_0_l : forall y, ip gz y = kz.
+Hypothesis ip_0_r : forall x, ip x gz = kz.
+Hypothesis ip_add_l : forall a b y, ip (gadd a b) y = kadd (ip a y) (ip b y).
+Hypothesis ip_add_r : forall x a b, ip x (gadd a b) = kadd (ip x a) (ip x b).
+Hypothesis E_self : forall k x y, k < n -> ip (E k x) y = ip x (E k y).
+Hypothesis B_self : forall k x y, k < n -> ip (B k x) y = ip x (B k y).
+
+Theorem P_selfadjoint x y : ip (P x) y = ip x (P y).
+Proof.
+  unfold P.
+  assert (H : forall m, m <= n -> ip (gsum m (fun k => E k (B k x))) y = ip x (gsum m (fun k => E k (B k y)))).
+  { induction m; intros Hm; simpl.
+    - rewrite ip_0_l, ip_0_r. reflexivity.
+    - rewrite ip_add_l, ip_add_r, IHm by lia. f_equal.
+      rewrite E_self by lia. rewrite B_self by lia. rewrite EB_comm by lia. reflexivity. }
+  apply H. lia.
+Qed.
+
+(* the residual z - P z is orthogonal to the range of P: <z, P w> = <P z, P w>  (subtraction-free form) *)
+Theorem P_residual_orthogonal z w : ip (P z) (P w) = ip z (P w).
+Proof. rewrite P_selfadjoint. rewrite P_idempotent. reflexivity. Qed.
 End ProjAlg.
+
+(* ---- the E_k of the code: differences of a nested family of projectors ----
+   A : nat -> G -> G with A_j (A_k x) = A_(max j k) x (the left interface projectors: U_{<=k} U_{<=k}^T, nested ranges, A_0 = id),
+   E_k = A_k - A_(k+1) for k < d-1 and E_(d-1) = A_(d-1): the hypothesis E_orth of the section follows. *)
+Section Nested.
+Variable G : Type.
+Variables (gz : G) (gadd : G -> G -> G) (gneg : G -> G).
+Hypothesis gadd_0_l : forall a, gadd gz a = a.
+Hypothesis gadd_0_r : forall a, gadd a gz = a.
+Hypothesis gadd_assoc : forall a b c, gadd a (gadd b c) = gadd (gadd a b) c.
+Hypothesis gadd_comm : forall a b, gadd a b = gadd b a.
+Hypothesis gadd_neg : forall a, gadd a (gneg a) = gz.
+Variable A : nat -> G -> G.
+Variable d : nat.
+Hypothesis A_add : forall k a b, A k (gadd a b) = gadd (A k a) (A k b).
+Hypothesis A_neg : forall k a, A k (gneg a) = gneg (A k a).
+Hypothesis A_nest : forall j k x, A j (A k x) = A (Nat.max j k) x.
+
+Definition Ediff (k : nat) (x : G) : G := if Nat.eqb (S k) d then A k x else gadd (A k x) (gneg (A (S k) x)).
+
+Lemma gneg_unique a b : gadd a b = gz -> b = gneg a.
+Proof.
+  intros H. rewrite <- (gadd_0_l b). rewrite <- (gadd_neg a) at 1. rewrite (gadd_comm a (gneg a)).
+  rewrite <- gadd_assoc. rewrite H. apply gadd_0_r.
+Qed.
+Lemma gneg_add a b : gneg (gadd a b) = gadd (gneg a) (gneg b).
+Proof.
+  symmetry. apply gneg_unique.
+  rewrite (gadd_comm (gneg a) (gneg b)). rewrite gadd_assoc. rewrite <- (gadd_assoc a b (gneg b)).
+  rewrite gadd_neg, gadd_0_r. apply gadd_neg.
+Qed.
+Lemma gneg_neg a : gneg (gneg a) = a.
+Proof. symmetry. apply gneg_unique. rewrite gadd_comm. apply gadd_neg. Qed.
+
+Theorem Ediff_orth k j x : k < d -> j < d -> Ediff k (Ediff j x) = if Nat.eqb k j then Ediff k x else gz.
+Proof.
+  intros Hk Hj. unfold Ediff.
+  destruct (Nat.eqb_spec (S k) d) as [Hkd|Hkd]; destruct (Nat.eqb_spec (S j) d) as [Hjd|Hjd].
+  - assert (k = j) by lia. subst j. rewrite Nat.eqb_refl. rewrite A_nest, Nat.max_id. reflexivity.
+  - (* k = d-1 > j *) destruct (Nat.eqb_spec k j); [lia|].
+    rewrite A_add, A_neg, !A_nest. replace (Nat.max k j) with k by lia. replace (Nat.max k (S j)) with k by lia. apply gadd_neg.
+  - (* j = d-1 > k *) destruct (Nat.eqb_spec k j); [lia|].
+    rewrite !A_nest. replace (Nat.max k j) with j by lia. replace (Nat.max (S k) j) with j by lia. apply gadd_neg.
+  - rewrite !A_add, !A_neg, !A_nest. rewrite gneg_add, gneg_neg.
+    destruct (Nat.eqb_spec k j) as [<-|Hne].
+    + rewrite Nat.max_id. replace (Nat.max k (S k)) with (S k) by lia. replace (Nat.max (S k) k) with (S k) by lia. rewrite Nat.max_id.
+      set (a := A k x). set (b := A (S k) x).
+      rewrite <- (gadd_assoc a (gneg b)). rewrite (gadd_assoc (gneg b) (gneg b) b). rewrite <- (gadd_assoc (gneg b) (gneg b) b).
+      rewrite (gadd_comm (gneg b) b), gadd_neg, gadd_0_r. reflexivity.
+    + destruct (Nat.lt_ge_cases k j) as [Hlt|Hge].
+      * replace (Nat.max k j) with j by lia. replace (Nat.max k (S j)) with (S j) by lia.
+        replace (Nat.max (S k) j) with j by lia. replace (Nat.max (S k) (S j)) with (S j) by lia.
+        set (a := A j x). set (b := A (S j) x).
+        rewrite <- (gadd_assoc a (gneg b)). rewrite (gadd_assoc (gneg b) (gneg a) b). rewrite (gadd_comm (gneg b) (gneg a)).
+        rewrite <- (gadd_assoc (gneg a) (gneg b) b). rewrite (gadd_comm (gneg b) b), gadd_neg, gadd_0_r. apply gadd_neg.
+      * assert (j < k) by lia.
+        replace (Nat.max k j) with k by lia. replace (Nat.max k (S j)) with k by lia.
+        replace (Nat.max (S k) j) with (S k) by lia. replace (Nat.max (S k) (S j)) with (S k) by lia.
+        set (a := A k x). set (b := A (S k) x).
+        rewrite gadd_neg, gadd_0_l. rewrite gadd_comm. apply gadd_neg.
+Qed.
+End Nested.
